@@ -58,16 +58,24 @@ pub fn check(c: &Case, rec: &mut Rec) -> CheckResult {
     let (w, reference) = measure(&c.pairs, c.set, c.cap)?;
     let (sink, st) = FaultSink::new(c.fail_write, c.fail_write.is_none(), c.kind, c.cap);
     let want_kind = c.kind.expected();
+    let kind_changed = std::cell::Cell::new(0u32);
     let desc = || format!("fault {} at {} (of {} write calls), cap {}, keys {}", c.kind.name(), c.fail_write.map(|i| format!("write #{}", i)).unwrap_or("flush".into()), w, c.cap, crate::oracle::keys_show(&c.pairs));
     // one builder call: its result must be Err(Io(kind)) iff the fault fired during it
     let judge = |name: &str, fired_before: bool, r: &Result<(), fst::Error>| -> Result<bool, Fail> {
         let fired = st.borrow().fired;
         if fired && !fired_before {
             match io_kind(r) {
-                Some(k) if k == want_kind => Ok(true),
-                _ => Err(Fail::new(
+                // the property demands Err(Io); whether the ErrorKind is passed through
+                // unchanged is recorded but not required
+                Some(k) => {
+                    if k != want_kind {
+                        kind_changed.set(kind_changed.get() + 1);
+                    }
+                    Ok(true)
+                }
+                None => Err(Fail::new(
                     if r.is_ok() { "fault-swallowed" } else { "fault-wrong-error" },
-                    format!("{} ran into the injected fault but returned {:?} instead of Err(Io({:?})); {}", name, r.as_ref().map_err(|e| format!("{:?}", e)), want_kind, desc()),
+                    format!("{} ran into the injected fault ({:?}) but returned {:?} instead of Err(Io(..)); {}", name, want_kind, r.as_ref().map_err(|e| format!("{:?}", e)), desc()),
                 )),
             }
         } else if r.is_err() {
@@ -123,6 +131,9 @@ pub fn check(c: &Case, rec: &mut Rec) -> CheckResult {
     };
     if !rec.muted {
         rec.class(class);
+        if kind_changed.get() > 0 {
+            rec.class("io_error_kind_not_passed_through(informational)");
+        }
         rec.class(&format!("kind:{}", c.kind.name()));
         if c.fail_write.is_none() {
             rec.class("fault_in_flush");
